@@ -1,6 +1,8 @@
 """C06 (text round trip), C04 (membership vs PEP 440), C17 (parser acceptance)."""
 from __future__ import annotations
 
+import itertools
+
 from . import core
 from .specs import (AnySpecifier, ArbitrarySpecifier, EmptySpecifier, RangeSpecifier, UnionSpecifier, Version,
                     all_spellings, enc_spec, enc_T, enc_exc, is_canon, parse_version_specifier, random_clause_set,
@@ -196,6 +198,32 @@ def run_c04(run: core.Run, n: int) -> None:
                 if compat_postrelease_family(res):
                     f.family = "compat-render-postrelease-max"
                 run.fail(f)
+    # exhaustive: every ordered pair of range / point / complement leaves over three bounds with every combination of
+    # inclusive and exclusive ends, under &, | and ~(A&B)&A, judged at, between and beyond the bounds (seed C04c: a tie
+    # on equal upper bounds decided by the wrong flag needs one particular combination and the candidate on the bound)
+    gb = ["1", "2", "3.0"]
+    leaves = []
+    for i, lo in enumerate(gb):
+        leaves += [f">{lo}", f">={lo}", f"<{lo}", f"<={lo}", f"=={lo}", f"!={lo}"]
+        for hi in gb[i + 1:]:
+            leaves += [f"{a}{lo},{b}{hi}" for a in (">", ">=") for b in ("<", "<=")]
+    cands = [Version(x) for x in ("0", "1", "1.5", "2", "2.5", "3", "4")]
+    parsed = {t: parse_version_specifier(t) for t in leaves}
+    truth = {t: [SpecifierSet(t).contains(v) for v in cands] for t in leaves}
+    for A, B in itertools.product(leaves, leaves):
+        a, b = parsed[A], parsed[B]
+        ta, tb = truth[A], truth[B]
+        for name, res, want in ((f"({A}) & ({B})", a & b, [x and y for x, y in zip(ta, tb)]),
+                                (f"({A}) | ({B})", a | b, [x or y for x, y in zip(ta, tb)]),
+                                (f"~(({A}) & ({B})) & ({A})", ~(a & b) & a, [x and not y for x, y in zip(ta, tb)])):
+            n_oracle += len(cands)
+            got = [v in res for v in cands]
+            if got != want:
+                i = [g != w for g, w in zip(got, want)].index(True)
+                t = ("and", ("leaf", A), ("leaf", B)) if name.startswith("(") and " & " in name else \
+                    (("or", ("leaf", A), ("leaf", B)) if " | " in name else ("and", ("not", ("and", ("leaf", A), ("leaf", B))), ("leaf", A)))
+                run.fail(core.Failure(f"in|{name}|{cands[i]}", f"{cands[i]} in [{name}] = {got[i]}, packaging says {want[i]}; result {res!r}",
+                                      {"op": "tree", "tree": t, "v": str(cands[i])}))
     # `===` leaves: same equation or ValueError
     for _ in range(max(50, n // 10)):
         arb = "===" + rng.choice(pool)
